@@ -16,6 +16,9 @@ def v3Of : List Float → Option (V3 Float)
   | [a,b,c] => some ⟨a,b,c⟩
   | _ => none
 def v3To (v : V3 Float) : List Float := [v.x, v.y, v.z]
+def v3List : List Float → List (V3 Float)
+  | a :: b :: c :: rest => ⟨a, b, c⟩ :: v3List rest
+  | _ => []
 def qOf : List Float → Option Qt
   | [x,y,z,w] => some ⟨⟨x,y,z⟩, w⟩
   | _ => none
@@ -68,6 +71,16 @@ def handle (op : String) (args : List String) : Option String := do
   | "c17.line.closest" => do
       let a ← v3Of (fs.take 3); let b ← v3Of ((fs.drop 3).take 3); let p ← v3Of (fs.drop 6)
       pure (fsHex (v3To ((geometry.NewLine3D a b).ClosestPointOnLine p)))
+  -- mesh level: Mesh.Rotate / Translate / Scale / ApplyTRS must move every position exactly as the point function does
+  | "c17.mesh.rotate" => do
+      let q ← qOf (fs.take 4); pure (fsHex ((v3List (fs.drop 4)).flatMap fun v => v3To (q.Rotate v)))
+  | "c17.mesh.translate" => do
+      let t ← v3Of (fs.take 3); pure (fsHex ((v3List (fs.drop 3)).flatMap fun v => v3To (v.Add t)))
+  | "c17.mesh.scale" => do
+      let t ← v3Of (fs.take 3); pure (fsHex ((v3List (fs.drop 3)).flatMap fun v => v3To (v.MultByVector t)))
+  | "c17.mesh.applytrs" => do
+      let p ← v3Of (fs.take 3); let r ← qOf ((fs.drop 3).take 4); let s ← v3Of ((fs.drop 7).take 3)
+      pure (fsHex ((v3List (fs.drop 10)).flatMap fun v => v3To ((trs.New p r s).Transform v)))
   -- oracles: the theorem statements of Props/C17 evaluated on the implementation's own output
   | "c17.holds.add_entrywise" => do   -- args: a b out
       let a ← mOf (fs.take 16); let b ← mOf ((fs.drop 16).take 16); let o ← mOf (fs.drop 32)
